@@ -101,3 +101,38 @@ Proof.
       apply in_flat_map in Hx2. destruct Hx2 as (s & Hs & Hx2). apply in_map_iff in Hx2.
       destruct Hx2 as (z & Hz & _). inversion Hz; subst. contradiction.
 Qed.
+
+Lemma chunk_slices_product chunks blk :
+  In blk (enumerate_chunk_slices chunks) <-> Forall2 (fun a c => In a (offsets 0 0 c)) blk chunks.
+Proof.
+  unfold enumerate_chunk_slices. rewrite in_product.
+  split; intros H.
+  - remember (map (offsets 0 0) chunks) as ls eqn:E. revert chunks E.
+    induction H as [|a l x ls Ha Hr IH]; intros [|c chunks] E; try discriminate; constructor;
+      inversion E; subst; auto.
+  - induction H as [|a c x cs Ha Hr IH]; constructor; auto.
+Qed.
+
+Lemma chunk_slices_count chunks :
+  length (enumerate_chunk_slices chunks) = fold_right (fun c n => (length c * n)%nat) 1%nat chunks.
+Proof.
+  unfold enumerate_chunk_slices. rewrite length_product.
+  induction chunks as [|c r IH]; cbn; [reflexivity|]. rewrite IH. f_equal.
+  clear. generalize 0%nat, 0. induction c as [|x c IHc]; cbn; intros; [reflexivity|]. f_equal. apply IHc.
+Qed.
+
+Lemma offsets_fst_lt c : forall pos off e, In e (offsets pos off c) -> (pos <= fst e)%nat.
+Proof.
+  induction c as [|x c IH]; cbn; intros pos off e H; [contradiction|].
+  destruct H as [<-|H]; [cbn; lia|]. apply IH in H. lia.
+Qed.
+Lemma offsets_nodup c : forall pos off, NoDup (offsets pos off c).
+Proof.
+  induction c as [|x c IH]; cbn; intros pos off; constructor; [|apply IH].
+  intros H. apply offsets_fst_lt in H. cbn in H. lia.
+Qed.
+Lemma chunk_slices_nodup chunks : NoDup (enumerate_chunk_slices chunks).
+Proof.
+  unfold enumerate_chunk_slices. apply NoDup_product.
+  induction chunks as [|c r IH]; cbn; constructor; [apply offsets_nodup|exact IH].
+Qed.
